@@ -94,7 +94,16 @@ func (PoolH) Gen(prop string, seed uint64, tier string) *hx.Case {
 		case 2:
 			add(PoolOp{Op: "undo", N: r.Range(1, 3)})
 		case 3:
-			add(PoolOp{Op: "tick", Ms: []int64{1000, 60_000, 3_700_000, 86_400_000, 16 * 86_400_000}[r.Intn(5)]})
+			if r.Chance(0.3) {
+				// days pass without a sweep, a fresh child arrives, the pool is saved and loaded
+				add(PoolOp{Op: "tick", Kind: "nosweep", Ms: []int64{86_400_000, 13 * 86_400_000, 15 * 86_400_000, 16 * 86_400_000}[r.Intn(4)]})
+				add(PoolOp{Op: "tx", Kind: "child"})
+				if r.Chance(0.7) {
+					add(PoolOp{Op: "saveload"})
+				}
+			} else {
+				add(PoolOp{Op: "tick", Ms: []int64{1000, 60_000, 3_700_000, 86_400_000, 16 * 86_400_000}[r.Intn(5)]})
+			}
 		case 4:
 			add(PoolOp{Op: "saveload"})
 		case 5:
@@ -874,6 +883,11 @@ func (PoolH) Run(t *testing.T, c *hx.Case) *hx.Outcome {
 				p.doUndo(o)
 			case "tick":
 				simrt.Sleep(time.Duration(o.Ms) * time.Millisecond)
+				if o.Kind == "nosweep" {
+					// time passes without the housekeeping tick getting its turn (busy or suspended node)
+					out.Fault("clock_jump_without_sweep", 1)
+					break
+				}
 				before := len(txpool.TransactionsToSend)
 				txpool.Tick()
 				if n := before - len(txpool.TransactionsToSend); n > 0 {
